@@ -2,6 +2,7 @@
 from __future__ import annotations
 
 import json
+import time
 from typing import List
 
 from harness.lib.core import VERIF, Ctx, lean_lock, run_driver, shrink_ops
@@ -16,33 +17,44 @@ MANIFEST = {
             "connection table); queries run iff the id is in the table (issued and not closed) - forged, closed and foreign-closed "
             "ids get 401 and change nothing, only the owner's address can close; DELETE => COMPROMISED, ENCRYPT => CORRUPT, SELECT on "
             "COMPROMISED data fails and the file leaves COMPROMISED only through a successful restore, an ENCRYPT or deletion; "
-            "a backup taken while GOOD restores to GOOD; with the service not running, the node not ON or the request path "
-            "blocked, connect/query/disconnect/backup/restore fail and leave the server unchanged; capacity boundary; "
-            "wrong-then-right password. Deepened: `_process_connect`, `_process_sql` and `add_connection` are translated statement by "
-            "statement from the source on every run (Gen/DatabaseTr.lean) and PROVED EQUAL to the model (C17_tr_*); shut-down "
-            "duration 0; backup_server_ip None; the FTP client on the database host stopped / paused / disabled / uninstalled; the "
-            "service uninstalled; a co-located database client owning port 5432; folder and backup-copy deletion; a saturated "
-            "link as an adversarial input of backup / restore / tick; DataManipulationBot and RansomwareScript driven through "
-            "attack() and their execute requests (stage machine with both Bernoulli outcomes as inputs). Tie: status codes, guard tables, health sets and comparison operators regenerated from "
-            "database_service.py / software.py / service.py (Gen/Database.lean + C17_gen_* obligations) and differential rig R-db "
-            "on real client/server/backup hosts behind a router (several concurrent clients, ransomware script, uninstall, "
-            "power events, ACL blocks in either direction, ticks).",
+            "with the service not running, the node not ON or the request path blocked, connect/query/disconnect/backup/restore "
+            "fail and leave the server unchanged; wrong-then-right password. ROUND 3: (1) backup / damage / restore cycles: "
+            "downloads/ is modelled explicitly (leftover kept / planted / corrupted / repaired / deleted, folder deleted) and "
+            "C17_restore_roundtrip_run proves, for EVERY state and EVERY operation sequence between a successful backup and a "
+            "restore (not deleting the backup host's copy, not re-installing the service), that a restore reporting success leaves "
+            "the database file with exactly the health it had when the backup was taken and the service GOOD; C17_restore_needs_path: "
+            "with either direction of the backup path closed, the backup host off, its FTP server or the database host's FTP client "
+            "not running, or a link refusing the file, a restore does not succeed and keeps file / health / table, whatever lies "
+            "under downloads/ (finding F-C17-2, repaired: a leftover was restored instead of the backup). (2) the number of live "
+            "connections never exceeds max_sessions along every run (C17_sessions_bounded_run), a full table admits nobody, a "
+            "disconnect frees exactly one slot. (3) `receive`, `terminate_connection`, `_process_connect`, `_process_sql`, "
+            "`add_connection`, `backup_database` and `restore_backup` are TRANSLATED statement by statement from the source on every "
+            "run (Gen/DatabaseTr.lean) and PROVED EQUAL to the model (C17_tr_*): the dispatcher's branch conditions, the sql gate, the "
+            "owner test of a disconnect, the order of the steps of a restore are proof obligations. (4) re-installing the database "
+            "service (refused / raises / replaces the instance: empty table, default limit, new uuid) and the FTP client at run time, "
+            "FTP-client restart / fix / scan with their countdowns, payloads the dispatcher does not recognise (answered 500), a "
+            "co-located client's own calls; shut-down duration 0; backup_server_ip None; a co-located client owning port 5432; a "
+            "saturated link as an adversarial input; DataManipulationBot / RansomwareScript. Tie: regenerated tables (Gen/Database.lean, "
+            "C17_gen_*), the translated functions, and differential rig R-db on real client/server/backup hosts behind a router.",
     "note": "C17-specific: the network between hosts is abstracted to per-direction reachability flags (validated by the rig "
-            "with real ACL rules, NIC state and node power); FTP transfer internals are modelled only as far as the database "
-            "uses them; link LOAD ACCOUNTING is C18's: here a link refusing the file-transfer frame is an input of the model "
-            "(all values covered by the theorems) whose actual value the rig observes on the real links; the file-system "
-            "request surface (C15) is out of scope.",
-    "technique": "Lean 4 theorems over an executable client/server/backup model; tied by regenerated tables and a differential rig",
+            "with real ACL rules, NIC state and node power); the FTP transfers are modelled as far as the database uses them "
+            "(`ftpSendFile` / `ftpRequestFile`, hand-written, validated by the rig; the database service's logic around them is "
+            "translated); link LOAD ACCOUNTING is C18's: here a link refusing the file-transfer frame is an input of the model "
+            "(all values covered by the theorems) whose actual value the rig observes on the real links; the outcomes of the "
+            "bot's Bernoulli trials are inputs of the model as well (the rig predicts them from the seed of Python's `random` "
+            "and checks the draws the real code made); the file-system request surface (C15) is out of scope.",
+    "technique": "Lean 4 theorems over an executable client/server/backup model; tied by regenerated tables, statement-by-statement "
+                 "translation of seven methods, and a differential rig",
     "design_ref": "5/C17",
 }
-MODULES = ["PrimaiteModel.Props.C17", "PrimaiteModel.Lemmas.DatabaseReach"]
+MODULES = ["PrimaiteModel.Props.C17", "PrimaiteModel.Props.C17Run", "PrimaiteModel.Props.C17Recv", "PrimaiteModel.Lemmas.DatabaseReach"]
 EXE = "drv_c17"
 
 
 def _diff_case(case: dict):
     impl = rig.run_impl(case)
     lines = rig.model_lines(case)
-    model = run_driver(EXE, lines)
+    model = rig.align(impl, run_driver(EXE, lines))
     for i, (a, b) in enumerate(zip(impl, model)):
         if a != b:
             return False, impl, model, i, lines
@@ -82,7 +94,7 @@ def _transfer_branch(op: str, prev_digest: str, blocks: dict) -> str:
     if bk[2] == "-":
         return "nothing-stored"
     if srv[4] != "-":
-        return "ok-stale-download-reply-blocked" if blocks.get(1) else "ok-download-kept"
+        return "reply-blocked-leftover-present(F-C17-2 path)" if blocks.get(1) else "ok-leftover-replaced"
     return "reply-blocked-no-copy(F-33 path)" if blocks.get(1) else "ok-fresh"
 
 
@@ -120,6 +132,16 @@ def run(ctx: Ctx):
         case, impl = rig.gen_and_run(rng, max_ops=ctx.scale(40, 70))
         cases.append((f"gen:{k}", case))
         pre[f"gen:{k}"] = impl
+    # directed families (scripts built from the same vocabulary, every choice from ctx.rng)
+    rng2 = ctx.rng.fork("directed")
+    for k in range(ctx.scale(40, 400)):
+        case, impl = rig.gen_boundary_and_run(rng2)
+        cases.append((f"boundary:{k}", case))
+        pre[f"boundary:{k}"] = impl
+    for k in range(ctx.scale(40, 400)):
+        case, impl = rig.gen_cycles_and_run(rng2)
+        cases.append((f"cycles:{k}", case))
+        pre[f"cycles:{k}"] = impl
     impl_all, lines_all, bounds = [], [], []
     for name, case in cases:
         impl = pre[name] if name in pre else rig.run_impl(case)
@@ -129,8 +151,10 @@ def run(ctx: Ctx):
         impl_all.append(impl)
     model_all = run_driver(EXE, lines_all)
     agree = 0
+    shrunk_per_sig: dict = {}
+    t_shrink0 = [time.time()]
     for (name, case), impl, (st, ln) in zip(cases, impl_all, bounds):
-        model = model_all[st:st + ln]
+        model = rig.align(impl, model_all[st:st + ln])
         lines = lines_all[st:st + ln]
         ctx.cov["traces_validated_against_impl"] += 1
         ctx.case(case, rig.nontrivial(model))
@@ -145,6 +169,11 @@ def run(ctx: Ctx):
             ctx.count("backup_server_ip:None")
         blocks = {}
         prev = ""
+        maxnow = case["max"]
+        for op in case["ops"]:
+            if op[0] == "dmp":
+                ctx.count(f"dmp:p_scan={op[4] / 1000}:predicted-scan={int(op[7])}")
+                ctx.count(f"dmp:p_attack={op[5] / 1000}:predicted-attack={int(op[8])}")
         for q, m in zip(lines, model):
             w = q.split()
             if w[0] in ("reset", "new", "cfg"):
@@ -157,6 +186,20 @@ def run(ctx: Ctx):
                 ctx.count(f"saturated:{w[0]}:" + "".join(w[1:]))
             if w[0] == "adm":
                 ctx.count("op:adm:" + ":".join(w[1:3] if w[1] == "ftpc" else w[1:2]))
+            if m.endswith("| LOOP"):
+                ctx.count("co:reply-loop(the real call does not return; explicit outcome, trace ends)")
+            if w[0] in ("dl", "co", "rj"):
+                ctx.count(f"op:{w[0]}:{w[-1] if w[0] != 'dl' else w[1]}")
+            if w[0] == "svcin":
+                ctx.count("result:svcin:" + ("raised" if "rej=R" in m else "refused" if "rej=1" in m else "replaced") + (":configured" if len(w) > 1 else ":bare"))
+                if "rej=0" in m:
+                    maxnow = 100   # a new instance: default max_sessions
+            if w[0] == "restore" and prev:
+                ctx.count("restore:leftover-before=" + prev.split()[0][4:].split(",")[4] + ":" + m.split()[0])
+            if w[0] == "connect" and prev:
+                srvp = prev.split()[0][4:]
+                nconn = 0 if "[]" in srvp else srvp[srvp.index("[") + 1:srvp.index("]")].count("@")
+                ctx.count("connect:table=" + ("full" if nconn >= maxnow else "one-below" if nconn + 1 == maxnow else "room") + ":" + m.split()[2])
             if w[0] == "dm":
                 ctx.count(f"dm:scan={w[3]},attack={w[4]},request={w[5]}")
             if " | " in m:
@@ -171,7 +214,7 @@ def run(ctx: Ctx):
                         ctx.count(f"status:{w[0]}:{s}")
                 if tok == "rej=1":
                     ctx.count("rejected:" + w[0])
-            if w[0] in ("backup", "restore", "connect", "hq", "nq", "rq", "ex", "rs", "nc"):
+            if w[0] in ("backup", "restore", "connect", "hq", "nq", "rq", "ex", "rs", "nc", "dm", "dl", "co"):
                 ctx.count(f"result:{w[0]}:{head.split()[0]}")
         if impl == model:
             agree += 1
@@ -179,14 +222,25 @@ def run(ctx: Ctx):
                 ctx.sample({"case": name, "lines": lines[1:10], "answers": [m.split(' | ')[0] for m in model[1:10]]}, cap=3)
             continue
         i = next((j for j, (a, b) in enumerate(zip(impl, model)) if a != b), min(len(impl), len(model)))
+        # shrinking re-runs the implementation and the driver for every candidate: on a broken tree hundreds of traces
+        # disagree, so it is bounded - two traces per signature, and a wall-clock budget for all of them together
+        sig0 = json.dumps(_sig(lines, i, impl, model), sort_keys=True)
+        shrunk_per_sig[sig0] = shrunk_per_sig.get(sig0, 0) + 1
+        small, impl2, model2, i2, lines2 = case, impl, model, i, lines
+        if shrunk_per_sig[sig0] <= 2 and time.time() - t_shrink0[0] < ctx.scale(25, 240):
+            t1 = time.time()
 
-        def fails(ops, case=case):
-            ok, *_ = _diff_case(dict(case, ops=ops))
-            return not ok
-        small = dict(case, ops=shrink_ops(case["ops"], fails))
-        ok, impl2, model2, i2, lines2 = _diff_case(small)
-        if ok:
-            small, impl2, model2, i2, lines2 = case, impl, model, i, lines
+            def fails(ops, case=case):
+                ok, *_ = _diff_case(dict(case, ops=[list(o) for o in ops]))
+                return not ok
+            cand = dict(case, ops=shrink_ops(case["ops"], fails, budget=ctx.scale(60, 200)))
+            ok, impl3, model3, i3, lines3 = _diff_case(cand)
+            if not ok:
+                small, impl2, model2, i2, lines2 = cand, impl3, model3, i3, lines3
+            ctx.count("shrunk-traces")
+            ctx.cov["shrink_s"] = round(ctx.cov.get("shrink_s", 0) + time.time() - t1, 1)
+        else:
+            ctx.count("unshrunk-disagreeing-traces")
         ctx.violation(_sig(lines2, i2, impl2, model2),
                       f"database answer/state differs from the proved model at op {i2} ({lines2[i2] if i2 < len(lines2) else '?'}): "
                       f"impl={impl2[i2] if i2 < len(impl2) else None!r} model={model2[i2] if i2 < len(model2) else None!r}",
